@@ -72,6 +72,8 @@ func (impl) Exec(h *vh.H, op string) string {
 		return execLoop(h, op)
 	case "reflect":
 		return execReflect(h, op)
+	case "import":
+		return execImport(h, op)
 	}
 	return "bad-op"
 }
